@@ -22,7 +22,11 @@ UNITS_OF = {
     "C19": ["envdl"],
     "C16": ["hash"],
     "C20": ["iter", "fixed_vector"],
+    "C05": ["log"], "C10": ["log"], "C09": ["log"],
 }
+
+
+LEVEL_OF = {"C09": "other"}   # sequential proof of the lock discipline; interleavings by assumption
 
 
 def load_unit(name, src):
@@ -46,7 +50,7 @@ def parse_c_sig(c):
 
 
 def gen_harness(unit):
-    out = ['#include "nitro_rt.h"\n#include "contracts.h"\n',
+    out = ['#include "nitro_rt.h"\n#include "contracts.h"\n#include "prelude_gen.h"\n',
            "int nitro_exc;\nsize_t g_w, g_n;\nsize_t g_in[16];\n"
            "#ifdef NITRO_UNIT_GLOBALS\nNITRO_UNIT_GLOBALS\n#endif\n"
            "#ifndef NITRO_HAVOC_UNIT\n#define NITRO_HAVOC_UNIT\n#endif\n"
@@ -243,6 +247,7 @@ def run_check(prop, a, bdir, seed, t0):
         gen_c = os.path.join(ud, uname + ".c")
         har_c = os.path.join(ud, uname + "_harness.c")
         open(gen_c, "w").write(gen)
+        open(os.path.join(ud, "prelude_gen.h"), "w").write("/* generated from /repo on this run */\n" + unit.shared_decls)
         open(har_c, "w").write(gen_harness(unit))
         write_kf_header(os.path.join(ud, "kf_gen.h"), known)
         # enforcement switches (input recording is active only in the function being enforced)
@@ -409,7 +414,7 @@ def write_evidence(prop, tier, seed, t0, jobs, units, tags, undecided=(), violat
             break
     ev = {
         "property_id": prop, "tier": tier if tier in ("quick", "thorough") else "quick", "seed": seed,
-        "level": "proof",
+        "level": LEVEL_OF.get(prop, "proof"),
         "coverage": {
             "obligations": obligations, "discharged": discharged,
             "checker_cmd": cmd or "goto-cc | goto-instrument --dfcc | cbmc (no job ran)",
